@@ -9,9 +9,12 @@ Correspondence (three layers, all judged INSIDE Coq by model/QueryTie.v):
         (impl_c12.py fast mode: only query_terminal / read_tty are replaced; window size and
         TIOCGWINSZ are a real pty's)                             -> QueryTie.check_fast
   pty   the REAL functions against a pty in real time: this process plays the terminal from
-        a generated profile and a burst / delay / late recipe (c12_pty.py); observed: return
-        value, requests written, bytes left unread, number of timeouts waited, terminal
-        attributes restored                                      -> QueryTie.pty_bits
+        a generated profile and a burst / delay / late recipe (c12_pty.py), FROM A GENERATED
+        INITIAL STATE of the terminal (attribute set: cooked / cbreak / raw / ...; unread
+        input already in its queue: type-ahead, key escape sequences, a stale reply, half a
+        sequence — model/QueryInit.v); observed: return value, requests written, bytes left
+        unread, number of timeouts waited, terminal attributes restored
+                                                                 -> QueryTie.pty_bits
 
 Every judgement has two halves: agreement with the executable model (model/Query.v) and, when
 the case is inside the property's hypothesis (well-formed replies, each written as a unit, in
@@ -36,7 +39,7 @@ LEVEL = "proof"
 EXTRA_TARGETS = ["model/QueryTie.vo"]
 
 HEADER = ("From Coq Require Import Ascii String List ZArith Bool Arith.\nImport ListNotations.\n"
-          "From TI Require Import model.Query model.QuerySpec model.QueryTie.\nOpen Scope Z_scope.\n")
+          "From TI Require Import model.Query model.QuerySpec model.QueryInit model.QueryTie.\nOpen Scope Z_scope.\n")
 
 OSC, ST, BEL, DCS, APC, CSI = b"\x1b]", b"\x1b\\", b"\x07", b"\x1bP", b"\x1b_", b"\x1b["
 REQ_FGBG = P.Q_FG + P.Q_BG + P.Q_DA1
@@ -108,6 +111,57 @@ def profile_term(sp):
         reply_term(sp["xtv"], xtv_wf), reply_term(sp["fg"], rgb_wf), reply_term(sp["bg"], rgb_wf),
         reply_term(sp["cell"], hw_wf), reply_term(sp["area"], hw_wf), reply_term(sp["kitty"], kitty_wf),
         reply_term(sp["da1"], bl)))
+
+
+# ---- the initial state of the terminal (model/QueryInit.v)
+def A(echo, icanon, isig, opost, vmin=1, vtime=0):
+    return {"echo": echo, "icanon": icanon, "isig": isig, "opost": opost, "vmin": vmin, "vtime": vtime}
+
+
+ATTRS = {
+    "cooked": A(True, True, True, True),               # a shell / a REPL
+    "cooked-noecho": A(False, True, True, True),       # e.g. while a password is typed
+    "cbreak": A(False, False, True, True),             # tty.setcbreak: full-screen programs
+    "cbreak-echo": A(True, False, True, True),
+    "raw": A(False, False, False, False),              # tty.setraw / curses raw() / urwid
+    "raw-vmin0-vtime1": A(False, False, False, False, 0, 1),
+    "raw-vmin5": A(False, False, False, False, 5, 0),
+}
+TYPEAHEAD = {
+    "none": b"",
+    "printable": b"abc",
+    "key-escape-sequence": b"\x1b[A",
+    "stale-DA1-reply": b"\x1b[?62;c",
+    "partial-escape-sequence": b"\x1b]11;rgb:12",
+    "stale-XTVERSION-reply": b"\x1bP>|foot(1.13.1)\x1b\\",
+    "stale-colour-reply": b"\x1b]10;rgb:1/2/3\x07",
+    "lone-CSI": b"\x1b[",
+}
+NO_INIT = {"attrs": ATTRS["cooked"], "typeahead": []}
+
+
+def init_of(c):
+    return c.get("init") or NO_INIT
+
+
+def mk_init(attrs, typeahead):
+    return {"attrs": dict(ATTRS[attrs]) if isinstance(attrs, str) else attrs,
+            "typeahead": list(TYPEAHEAD[typeahead]) if isinstance(typeahead, str) else list(typeahead)}
+
+
+def attr_term(a):
+    return ("{| a_echo := %s; a_icanon := %s; a_isig := %s; a_opost := %s; a_vmin := %d; a_vtime := %d |}" % (
+        b(a["echo"]), b(a["icanon"]), b(a["isig"]), b(a["opost"]), a["vmin"], a["vtime"]))
+
+
+def attrs_name(a):
+    return next((k for k, v in ATTRS.items() if v == a), "echo=%d,icanon=%d,isig=%d,opost=%d,vmin=%d,vtime=%d" % (
+        a["echo"], a["icanon"], a["isig"], a["opost"], a["vmin"], a["vtime"]))
+
+
+def typeahead_kind(t):
+    t = bytes(t)
+    return next((k for k, v in TYPEAHEAD.items() if v == t), "other(%d bytes)" % len(t))
 
 
 def cache_term(c):
@@ -417,7 +471,37 @@ def gen_calls(rng):
     return calls
 
 
+def gen_init(rng):
+    """an initial state: one of the usual attribute sets (sometimes with other VMIN / VTIME, or
+    an arbitrary combination of the flags) x unread input (the named kinds, or arbitrary bytes
+    that are safe to write to a tty)"""
+    u = rng.random()
+    if u < 0.8:
+        a = dict(ATTRS[rng.choice(list(ATTRS))])
+    else:
+        a = A(rng.random() < 0.5, rng.random() < 0.5, rng.random() < 0.7, rng.random() < 0.7)
+    if rng.random() < 0.2:
+        a["vmin"], a["vtime"] = rng.choice([(0, 0), (0, 1), (1, 0), (1, 2), (3, 0), (255, 0)])
+    u = rng.random()
+    if u < 0.15:
+        t = b""
+    elif u < 0.75:
+        t = TYPEAHEAD[rng.choice([k for k in TYPEAHEAD if k != "none"])]
+    elif u < 0.9:
+        t = bytes(rng.choice(SAFE) for _ in range(rng.randint(1, 12)))
+    else:  # several things queued up
+        t = b"".join(TYPEAHEAD[rng.choice(list(TYPEAHEAD))] for _ in range(rng.randint(2, 3)))
+    return mk_init(a, t)
+
+
 def gen_pty(rng, op=None):
+    c = gen_pty0(rng, op)
+    if rng.random() < 0.45:
+        c["init"] = gen_init(rng)
+    return c
+
+
+def gen_pty0(rng, op=None):
     op = op or rng.choices(OPS + ["raw", "session"], [4, 4, 4, 4, 2, 4, 2, 6])[0]
     if op == "raw":
         more = rng.choice(["csi", "c"])
@@ -487,12 +571,47 @@ WHOLE = {"mode": "whole", "delays": []}
 UNITS1 = {"mode": "units", "delays": [0, 1]}
 
 
-def pty_case(op, sp, cfg=None, recipes=None, cache=None, calls=None):
+def pty_case(op, sp, cfg=None, recipes=None, cache=None, calls=None, init=None):
     c = {"kind": "pty", "op": op, "cfg": dict(CFG0, **(cfg or {})), "cache": cache or [0, 0, 0, 0], "sp": sp,
          "recipes": recipes or [UNITS1, UNITS1]}
     if calls is not None:
         c["calls"] = calls
+    if init is not None:
+        c["init"] = init
     return c
+
+
+INIT_GETTERS = [  # every getter: (op, calls, profile)
+    ("fgbg", None, None), ("session", [["fg", True], ["fg", False]], None), ("namever", None, None),
+    ("cellsize", None, None), ("kitty", None, None), ("iterm2", None, "kons"), ("auto", None, None),
+    ("auto", None, "kons"),
+]
+
+
+def init_cases(full):
+    """every getter from the initial states {attribute sets} x {unread input}: the whole
+    product in the thorough tier; in the quick tier cooked / cbreak / raw with the kinds of
+    unread input rotating so that every getter meets every attribute set, and every kind of
+    input every attribute set"""
+    out = []
+    names = list(ATTRS) if full else ["cooked", "cbreak", "raw"]
+    kinds = list(TYPEAHEAD) if full else ["printable", "key-escape-sequence", "stale-DA1-reply",
+                                          "partial-escape-sequence", "stale-XTVERSION-reply"]
+    for i, (op, calls, prof) in enumerate(INIT_GETTERS):
+        sp = full_sp(b"Konsole", b"22.04.0") if prof == "kons" else full_sp()
+        for j, an in enumerate(names):
+            for k, tk in enumerate(kinds):
+                if full or (i + j) % len(kinds) == k:
+                    out.append(pty_case(op, sp, calls=calls, recipes=[UNITS1, WHOLE], init=mk_init(an, tk)))
+    if not full:
+        out += [pty_case("namever", full_sp(), init=mk_init("cbreak", "none")),
+                pty_case("cellsize", full_sp(), init=mk_init("raw", "none")),
+                # no query is made: the unread input is none of the library's business
+                pty_case("cellsize", full_sp(), cfg={"xpix": 800, "ypix": 480}, init=mk_init("cbreak", "printable")),
+                pty_case("namever", full_sp(), cfg={"enabled": False}, init=mk_init("raw", "key-escape-sequence")),
+                pty_case("fgbg", dict.fromkeys(SLOTS), init=mk_init("cbreak", "stale-colour-reply")),
+                pty_case("kitty", full_sp(), init=mk_init("raw-vmin0-vtime1", "lone-CSI"))]
+    return out
 
 
 def fast_case(op, sp, cfg=None, cache=None, calls=None):
@@ -534,6 +653,10 @@ def corpus():
         pty_case("session", silent, calls=[["fg", True], ["fg", False]], cfg={"env_name": "WezTerm"}),
         pty_case("session", full_sp(), calls=[["fg", False], ["nv"], ["fg", True]], cfg={"enabled": False}),
     ]
+    # boundary of "every subset of unsupported queries": a terminal that answers DA1 and nothing else
+    only_da1 = dict(silent, da1=full_sp()["da1"])
+    pty += [pty_case(op, only_da1, recipes=[WHOLE, WHOLE]) for op in ("fgbg", "namever", "cellsize", "kitty", "auto")]
+    pty += [pty_case("session", only_da1, calls=[["fg", True], ["nv"], ["fg", False]], recipes=[WHOLE, WHOLE])]
     fast = [fast_case(c["op"], c["sp"], c["cfg"], c["cache"], c.get("calls")) for c in pty]
     fast += [fast_case("kitty", full_sp(b"kitty", v)) for v in (b"0.20.0", b"0.19.99", b"0.20", b"1", b"0.20.x")]
     fast += [fast_case("iterm2", full_sp(b"konsole", v)) for v in (b"22.04.0", b"22.3.99", b"22.4", b"22", b"23", b"22.04.a")]
@@ -576,6 +699,8 @@ def impl_common(c, T):
          "cache": c["cache"], "winsize": [cfg["rows"], cfg["cols"], cfg["xpix"], cfg["ypix"]]}
     if c["op"] == "session":
         d["calls"] = c["calls"]
+    if c.get("init"):
+        d["init"] = c["init"]
     return d
 
 
@@ -659,9 +784,11 @@ def pcase_term(c, rec):
         bl(r["request"]), core.coq_list(r["bursts"], lambda x: "(%d%%nat, %s)" % (x[0], bl(x[1])))))
     nmin, nmax = nto_bounds(rec)
     return ("{| pc_op := %s; pc_cfg := %s; pc_cache := %s; pc_profile := %s; pc_raw_request := %s; pc_rounds := %s; "
-            "pc_obs := %s; pc_left := %s; pc_nto_min := %d; pc_nto_max := %d |}" % (
+            "pc_obs := %s; pc_left := %s; pc_attr := %s; pc_q0 := %s; pc_restored := %s; "
+            "pc_nto_min := %d; pc_nto_max := %d |}" % (
                 opk, cfg_term(c["cfg"]), cache_term(c["cache"]), profile_term(c["sp"]),
-                bl(c.get("request", [])), rounds, obs_term(op, res, c.get("calls")), bl(rec["leftover"]), nmin, nmax))
+                bl(c.get("request", [])), rounds, obs_term(op, res, c.get("calls")), bl(rec["leftover"]),
+                attr_term(init_of(c)["attrs"]), bl(init_of(c)["typeahead"]), b(rec["attr_restored"]), nmin, nmax))
 
 
 def fcase_term(c, res):
@@ -760,6 +887,15 @@ def shrink_candidates(c):
     for k, v in (("swap", False), ("termux", False), ("env_name", None), ("env_version", None)):
         if c["cfg"][k] != v:
             out.append(dict(c, cfg=dict(c["cfg"], **{k: v})))
+    if c.get("init"):
+        i0 = c["init"]
+        out.append({k: v for k, v in c.items() if k != "init"})
+        if len(i0["typeahead"]) > 1:
+            out.append(dict(c, init=dict(i0, typeahead=i0["typeahead"][:1])))
+            out.append(dict(c, init=dict(i0, typeahead=[97])))
+        for name in ("cbreak", "cooked"):
+            if i0["attrs"] != ATTRS[name] and (i0["attrs"]["echo"] == ATTRS[name]["echo"]):
+                out.append(dict(c, init=dict(i0, attrs=dict(ATTRS[name]))))
     if c["op"] == "session":
         for k in range(len(c["calls"])):
             if len(c["calls"]) > 1:
@@ -808,6 +944,9 @@ def describe(c):
         c["kind"], c["op"], cfg["cols"], cfg["rows"], cfg["xpix"], cfg["ypix"], "," + flags if flags else "",
         ", TERM_PROGRAM=%r/%r" % (cfg["env_name"], cfg["env_version"]) if cfg["env_name"] is not None else "",
         ", cache=%s" % c["cache"] if any(c["cache"]) else "")
+    if c.get("init"):
+        head += " INITIAL STATE{attributes=%s, unread input=%r (%s)}" % (
+            attrs_name(c["init"]["attrs"]), txt(c["init"]["typeahead"]), typeahead_kind(c["init"]["typeahead"]))
     if c["op"] == "raw":
         return head + " request=%r more=%s replies=%s recipe=%s" % (
             txt(c["request"]), c["more"], [txt(u) for u in c["stream_units"]], c["recipes"])
@@ -824,7 +963,7 @@ def describe(c):
 
 def sig_of(c):
     keep = {k: c[k] for k in ("kind", "op", "cfg", "cache", "sp", "recipes", "spec", "more", "request",
-                              "stream_units", "resp1", "resp2", "calls") if k in c}
+                              "stream_units", "resp1", "resp2", "calls", "init") if k in c}
     return core.sig(keep)
 
 
@@ -877,13 +1016,15 @@ def run(ctx):
         n_corpus = (len(cx), len(cf), len(cp))
         xs = cx + [gen_x(rng) for _ in range(300 if quick else 6000)]
         fs = cf + [gen_fast(rng) for _ in range(500 if quick else 9000)]
-        ps = cp + sweep_cases(step=4 if quick else 1) + (sweep_cases(step=3, late=True) if not quick else [])
+        ps = cp + init_cases(full=not quick)
+        ps += sweep_cases(step=4 if quick else 1) + (sweep_cases(step=3, late=True) if not quick else [])
         ps += [gen_pty(rng) for _ in range(70 if quick else 1400)]
     errors, mismatches, failures = [], [], []
     hist = {"layer": {"x_parse_color": len(xs), "fast(parsers+decisions)": len(fs), "pty(real time)": len(ps)},
             "op": {}, "in_hypothesis(spec judged)": {"x": 0, "fast": 0, "pty": 0}, "pty_bursts_per_round": {},
             "pty_burst_class": {"back-to-back": 0, "delayed": 0, "late(beyond timeout)": 0},
             "pty_timeouts_waited": {}, "pty_rounds": {}, "pty_leftover_nonempty": 0, "pty_attempts": {},
+            "pty_initial_attributes": {}, "pty_unread_input_at_call": {}, "pty_initial_state(attrs x input)": 0,
             "rgb_component_widths": {}, "identity": {}, "replies_present": {}, "queries_disabled": 0,
             "exceptions_observed": {}}
     distinct = set()
@@ -964,9 +1105,13 @@ def run(ctx):
         phase["pty"] = round(time.time() - t_ph, 1)
         errors += err
         conclusive = 0
+        init_pairs = set()
         for c, v, rec in zip(ps, bits, recs):
             bump(hist["op"], "pty:" + c["op"])
             bump(hist["pty_attempts"], (rec or {}).get("attempts", 0))
+            bump(hist["pty_initial_attributes"], attrs_name(init_of(c)["attrs"]))
+            bump(hist["pty_unread_input_at_call"], typeahead_kind(init_of(c)["typeahead"]))
+            init_pairs.add((attrs_name(init_of(c)["attrs"]), typeahead_kind(init_of(c)["typeahead"])))
             if v == -3:
                 # margins violated in all attempts (or the driver died): once more, alone
                 b1, e1, r1 = eval_pty([c], T_SLOW, tag="c12q", workers=1)
@@ -985,8 +1130,6 @@ def run(ctx):
                 bump(hist["pty_timeouts_waited"], nto_bounds(rec)[1])
                 hist["pty_leftover_nonempty"] += bool(rec["leftover"])
                 extra["pty_attr_restored"] += bool(rec["attr_restored"])
-                if not rec["attr_restored"]:
-                    mismatches.append({"case": describe(c), "terminal attributes not restored": True})
                 for r in rec["rounds"]:
                     bump(hist["pty_bursts_per_round"], min(len(r["bursts"]), 10))
                     for cls, data in r["bursts"]:
@@ -1003,8 +1146,11 @@ def run(ctx):
                 continue
             if v == -1:
                 continue  # Coq evaluation failed: already in `errors`
-            if len(failures) + len(mismatches) >= 6:
+            if (len(failures) >= 4) if property_bits(v) else (len(failures) + len(mismatches) >= 6):
                 # the verdict is a violation already; do not spend minutes re-running the rest
+                # (a discrepancy that contradicts the SPECIFICATION is still re-run while there
+                # are few confirmed failures: a concrete failing input is worth more than a
+                # list of model mismatches of another layer)
                 bump(extra, "further_discrepancies_not_rerun")
                 continue
             cv, crec = confirm_pty(c, v)
@@ -1015,16 +1161,19 @@ def run(ctx):
                 add_failure(c, cv, rec, crec)
             else:
                 mismatches.append({"case": describe(c), "bits": cv,
-                                   "observed": {k: crec.get(k) for k in ("result", "rounds", "leftover", "elapsed", "timeout")}})
+                                   "observed": {k: crec.get(k) for k in ("result", "rounds", "leftover", "attr_restored",
+                                                                         "elapsed", "timeout")}})
+        hist["pty_initial_state(attrs x input)"] = len(init_pairs)
         if conclusive == 0:
             errors.append("no pty case could be played within the timing margins")
     extra["phase_seconds"] = phase
     samples = [describe(c) for c in (xs[n_corpus[0]:n_corpus[0] + 1] + fs[n_corpus[1]:n_corpus[1] + 2]
-                                     + ps[:1] + ps[-2:])]
+                                     + ps[:1] + [c for c in ps if c.get("init")][:2] + ps[-2:])]
     return {
-        "corr_name": "Query.v (x_parse_color; parsers + decision rules of the six getters on canned responses; the six "
-                     "getters + query_terminal against a real pty in real time: value, requests, unread bytes, timeouts "
-                     "waited) == term_image; QuerySpec.v (what must be reported for the terminal profile) == observed",
+        "corr_name": "Query.v / QueryInit.v (x_parse_color; parsers + decision rules of the six getters on canned responses; "
+                     "the six getters + query_terminal against a real pty in real time from a generated initial state "
+                     "(attribute set, unread input): value, requests, unread bytes, attributes left, timeouts waited) == "
+                     "term_image; QuerySpec.v (what must be reported for the terminal profile) == observed",
         "evaluations": len(xs) + len(fs) + len(ps),
         "distinct_nontrivial": len(distinct),
         "rule": "corpus (F7/F10 regressions, version boundaries 0.20.0 / 22.04.0, silent / DA1-less / disabled / swap / "
@@ -1036,7 +1185,13 @@ def run(ctx):
                 "cell-size cache hit/miss); fast layer additionally mangled responses over all 7-bit bytes; pty layer "
                 "burst schedules (whole / one burst per reply / groups of replies / arbitrary byte cuts / every byte "
                 "its own write) x per-burst class (back-to-back, delayed T/25, held back beyond the timeout) and a "
-                "sweep over split positions of the full reply stream (every position in the thorough tier).  "
+                "sweep over split positions of the full reply stream (every position in the thorough tier); pty layer "
+                "INITIAL STATE of the terminal when the call is made: attribute set (cooked, cooked without echo, "
+                "cbreak, cbreak with echo, raw, raw with other VMIN/VTIME, random flag combinations) x unread input in "
+                "the queue (none, printable type-ahead, a key's escape sequence, a complete stale DA1 / XTVERSION / "
+                "colour reply, a partial escape sequence, a lone CSI, random safe bytes, several of them): every getter "
+                "x {cooked, cbreak, raw} with the kinds of input rotating in the quick tier, the full product (7 "
+                "attribute sets x 8 inputs x every getter) in the thorough tier, and ~45% of the generated pty cases.  "
                 "Non-trivial: x spec inside the XParseColor grammar; fast case with a non-empty response; pty case in "
                 "which at least one request was answered; distinct by full case hash.",
         "samples": samples,
@@ -1052,6 +1207,12 @@ def run(ctx):
             "pty runs use only ESC, BEL and printable bytes (others are interpreted by the tty line discipline)",
             "bytes written in a separate write() after the point where the reader stops are outside what the property "
             "determines (race between the terminal and the drain): the harness glues them to the stopping burst or holds them back",
+            "initial state: the unread input consists of bytes that are safe to write to a tty (ESC, BEL, printable); it "
+            "is in the line discipline's queue (counted with FIONREAD) before the call starts; in the canonical modes it is "
+            "queued as a pushed line (the attribute set is applied with TCSANOW after the bytes are in); documented "
+            "behaviour judged against: 'Any unread input is discarded before the query' (query_terminal docstring; "
+            "guide/concepts, Terminal Queries, step 1) — so after a call that wrote a request NOTHING is readable; a "
+            "call that wrote no request leaves the unread input alone (model), which the specification side does not judge",
             "int(s, 16) extras (sign, blanks, underscores, 0x) cannot reach x_parse_color through the reply pattern and are "
             "not generated for the stand-alone comparison",
         ],
@@ -1059,6 +1220,7 @@ def run(ctx):
             "pty fake terminal (harness/props/c12_pty.py) and the driver's leftover/sentinel protocol (impl_c12.py)",
             "fast layer: utils.query_terminal / utils.read_tty replaced by canned responses; everything above is the real code",
             "a pass-through wrapper around utils.write_tty records the time of each request (pty layer)",
+            "the staging protocol that enters a case's initial state (impl_c12.enter_initial_state: termios + FIONREAD)",
             "every discrepancy must reproduce in two quiet re-runs to be reported (see extra.unreproduced_discrepancies)",
         ],
         "extra": extra,
